@@ -125,20 +125,146 @@ def check_model(chk: harness.Check, name: str, text: str, tags: List[str], rng, 
                     chk.violation(f"invariant-not-boolean/{sub}", dict(witness, result=repr(result_value)[:200]))
 
 
+FOOTER = '\n\n__version__ = "dummy"\n__xml_namespace__ = "https://dummy.com"\n'
+
+# Hand-written shapes the generator does not produce; each must either be rejected or
+# evaluate cleanly.
+TARGETED = {
+    "constrained-primitive-with-parents-of-different-primitives": '''
+@invariant(lambda self: self >= 0, "Count must be non-negative.")
+class Count(int, DBC):
+    pass
+
+
+@invariant(lambda self: len(self) > 0, "Name must not be empty.")
+class Name(str, DBC):
+    pass
+
+
+class Named_count(Count, Name, DBC):
+    pass
+
+
+class Holder(DBC):
+    value: Named_count
+
+    def __init__(self, value: Named_count) -> None:
+        self.value = value
+''',
+    "constrained-primitive-with-parents-of-different-primitives-reversed": '''
+@invariant(lambda self: len(self) > 0, "Name must not be empty.")
+class Name(str, DBC):
+    pass
+
+
+@invariant(lambda self: self >= 0, "Count must be non-negative.")
+class Count(int, DBC):
+    pass
+
+
+class Named_count(Name, Count, DBC):
+    pass
+
+
+class Holder(DBC):
+    value: Named_count
+    other: Optional[Named_count]
+
+    def __init__(self, value: Named_count, other: Optional[Named_count] = None) -> None:
+        self.value = value
+        self.other = other
+''',
+    "optional-on-the-right-of-a-comparison": '''
+@invariant(lambda self: self.low <= self.high, "Low must not exceed high.")
+class Interval(DBC):
+    low: int
+    high: Optional[int]
+
+    def __init__(self, low: int, high: Optional[int] = None) -> None:
+        self.low = low
+        self.high = high
+''',
+    "optional-on-the-left-of-a-comparison": '''
+@invariant(lambda self: self.low <= self.high, "Low must not exceed high.")
+class Interval(DBC):
+    high: int
+    low: Optional[int]
+
+    def __init__(self, high: int, low: Optional[int] = None) -> None:
+        self.high = high
+        self.low = low
+''',
+    "optional-list-in-quantifier": '''
+@invariant(lambda self: all(len(x) > 0 for x in self.names), "Names must not be empty.")
+class Something(DBC):
+    names: Optional[List[str]]
+
+    def __init__(self, names: Optional[List[str]] = None) -> None:
+        self.names = names
+''',
+    "optional-in-range-bound": '''
+@invariant(lambda self: all(self.items[i] > 0 for i in range(0, self.size)), "Items must be positive.")
+class Something(DBC):
+    items: List[int]
+    size: Optional[int]
+
+    def __init__(self, items: List[int], size: Optional[int] = None) -> None:
+        self.items = items
+        self.size = size
+''',
+    "optional-member-of-member": '''
+class Inner(DBC):
+    name: Optional[str]
+
+    def __init__(self, name: Optional[str] = None) -> None:
+        self.name = name
+
+
+@invariant(lambda self: self.inner.name == "x" or len(self.inner.name) > 1, "Inner name.")
+class Outer(DBC):
+    inner: Inner
+
+    def __init__(self, inner: Inner) -> None:
+        self.inner = inner
+''',
+    "optional-index": '''
+@invariant(lambda self: self.items[0] > 0, "First positive.")
+class Something(DBC):
+    items: Optional[List[int]]
+
+    def __init__(self, items: Optional[List[int]] = None) -> None:
+        self.items = items
+''',
+    "optional-arithmetic": '''
+@invariant(lambda self: self.size + 1 > 0, "Size.")
+class Something(DBC):
+    size: Optional[int]
+
+    def __init__(self, size: Optional[int] = None) -> None:
+        self.size = size
+''',
+}
+
+
 def worker(args) -> Dict[str, Any]:
-    argv, shard, n_shards, n_models, n_instances = args
+    argv, shard, n_shards, n_models, n_instances = args[:-1]
+    mins = args[-1]
     chk = harness.Check("C07", "exploration", RULE, argv)
+    chk.set_worker_minimums(mins, n_shards)
     budget = chk.wall_budget(150, 900)
     jobs: List[Tuple[str, str, List[str]]] = []
     if shard == 0:
         for name, text in corpus.small_common():
             jobs.append((name, text, []))
+    for k, (name, body) in enumerate(sorted(TARGETED.items())):
+        if k % n_shards == shard:
+            jobs.append((f"targeted/{name}", body + FOOTER, []))
     for i in range(shard, n_models, n_shards):
         mistype = i % 8 != 0  # 1 in 8 is a well-typed control
         m = mmgen.generate(chk.rng("model", i), mmgen.Profile(sdk_safe=True, mistype=mistype, p_optional=0.5))
         jobs.append((f"mmg/{chk.seed}/{i}", m.text, [t for _, _, t in m.mistyped]))
     for idx, (name, text, tags) in enumerate(jobs):
-        if chk.elapsed() > budget:
+        if chk.should_stop(budget):
             chk.count("models_skipped_for_budget", len(jobs) - idx)
             break
         check_model(chk, name, text, tags, chk.rng("inst", name), n_instances)
@@ -150,8 +276,14 @@ def main(argv) -> int:
     n_models = chk.pick(400, 8000)
     n_instances = chk.pick(30, 60)
     n_shards = 12
+    mins = {
+        "models_accepted": chk.pick(60, 250),
+        "mistyped_models_accepted": chk.pick(15, 100),
+        "rejected_by_type_inference": chk.pick(50, 250),
+        "invariant_evaluations": chk.pick(5000, 50000),
+    }
     with concurrent.futures.ProcessPoolExecutor(max_workers=n_shards) as pool:
-        jobs = [pool.submit(worker, (list(argv), s, n_shards, n_models, n_instances)) for s in range(n_shards)]
+        jobs = [pool.submit(worker, (list(argv), s, n_shards, n_models, n_instances, mins)) for s in range(n_shards)]
         for job in jobs:
             try:
                 chk.merge(job.result())
@@ -160,9 +292,7 @@ def main(argv) -> int:
     if chk.tier == "thorough":
         # the real-world model: 109 invariants on generated instances
         check_model(chk, "corpus/v3", corpus.v3(), [], chk.rng("v3"), 300)
-    chk.require_min("models_accepted", chk.pick(60, 250))
-    chk.require_min("mistyped_models_accepted", chk.pick(15, 100))
-    chk.require_min("rejected_by_type_inference", chk.pick(50, 250))
-    chk.require_min("invariant_evaluations", chk.pick(5000, 50000))
     chk.assume("'accepts' = run.load_model succeeds and the Python generator, which calls type_inference.infer_for_invariant on every invariant, exits 0")
+    for counter_name, minimum in mins.items():
+        chk.require_min(counter_name, minimum)
     return chk.finish()
